@@ -302,19 +302,25 @@ def h_tensor(ctx, N, d, m, full=False):
             else:
                 ctx.eq(T[i], ref, 'tensor[%s]' % (tuple(alpha),))
     else:
-        # d == 2: the full symmetric Hessian
-        for i in range(N):
-            for j in range(N):
-                alpha = [0] * N
+        # the default as_full_matrix=True: the full symmetric d-th derivative tensor of shape (N,)*d,
+        # T[i1,..,id] = d^d f / dx_i1 .. dx_id = alpha! * (Taylor coefficient of alpha)
+        ctx.fact(T.shape == (N,) * d, 'full derivative tensor has shape (N,)*d: %s' % (T.shape,))
+        if T.shape != (N,) * d:
+            return
+        for idx in itertools.product(range(N), repeat=d):
+            alpha = [0] * N
+            for i in idx:
                 alpha[i] += 1
-                alpha[j] += 1
-                ref = taylor_coeff(tuple(alpha)) * (2 if i == j else 1)
-                if ctx.mode == 'sym':
-                    r = S.lift(T[i, j]) - S.lift(ref)
-                    ctx.holds(r <= tol, 'H[%d,%d] - exact <= tol' % (i, j))
-                    ctx.holds(r >= -tol, 'H[%d,%d] - exact >= -tol' % (i, j))
-                else:
-                    ctx.eq(T[i, j], ref, 'H[%d,%d]' % (i, j))
+            fact = 1
+            for a in alpha:
+                fact *= math.factorial(a)
+            ref = taylor_coeff(tuple(alpha)) * fact
+            if ctx.mode == 'sym':
+                r = S.lift(T[idx]) - S.lift(ref)
+                ctx.holds(r <= tol * fact, 'T%s - exact <= tol' % (list(idx),))
+                ctx.holds(r >= -tol * fact, 'T%s - exact >= -tol' % (list(idx),))
+            else:
+                ctx.eq(T[idx], ref, 'T%s' % (list(idx),))
 
 
 def h_tensor_sequence(ctx, pairs):
@@ -400,4 +406,6 @@ def units(tier, seed):
         add('tensor sequence %s' % pairs, 'h_tensor_sequence', o={'validate': False}, pairs=pairs)
     for N in (2, 3):
         add('tensor-as-hessian/N%d' % N, 'h_tensor', o={'validate': False}, N=N, d=2, m=3, full=True)
+    for (N_, d_) in [(2, 3), (3, 3), (2, 1), (1, 3), (2, 4)]:
+        add('full derivative tensor/N%d,d%d' % (N_, d_), 'h_tensor', o={'validate': False}, N=N_, d=d_, m=d_ + 1, full=True)
     return out
